@@ -351,7 +351,9 @@ class Gen:
         if mode != "assume":
             entry = spec.get("entry", "")
             if self.probe and mode == "prove":
-                entry = "assert(false); // @probe " + key + "\n" + entry
+                # reachability probe: must FAIL; what follows it is cut off (assume(false) in the probe copy only) so that the
+                # query stays small - the probe asks one thing: is the entry reachable under the precondition
+                entry = "assert(false); // @probe " + key + "\nassume(false);\n" + entry
             if entry:
                 inserts.append((it.body_open + 1, "\n" + entry.rstrip("\n") + "\n", ("spec", f"{key}/entry")))
             lps = loops_in_fn(src, it)
